@@ -123,6 +123,37 @@ def run_case(case, workdir):
                 rec.exe([dh, "outside", d, side, far], nontrivial=True)
                 if st != "exc":
                     rec.fail("outside_answered", {"point": pt}, "returned %r" % (np.asarray(val).tolist(),))
+        # history across plotfiles: the SAME selection objects (lists of names) the caller used above, now on a second plotfile
+        # that stores the same fields in another order - a selection argument belongs to the caller and names fields, not columns
+        d2 = dict(desc, fields=list(reversed(names)), seed=desc.get("seed", 0) + 5)
+        if isinstance(desc["payload"], list):
+            d2["payload"] = list(reversed(desc["payload"]))
+        path2, ref2 = build(d2, workdir, "plt00001")
+        pck2 = PlotfileCooker(path2)
+        lv = ref2.nlevels - 1
+        for b, (lo, hi) in enumerate(ref2.boxes[lv]):
+            shape = tuple(h - l + 1 for l, h in zip(lo, hi))
+            if min(shape) < 3:
+                continue
+            loc = tuple(s_ // 2 for s_ in shape)
+            g = [lo[d] + loc[d] for d in range(3)]
+            pt = [ref2.geo_lo[d] + (g[d] + 0.5) * ref2.dx[lv][d] for d in range(3)]
+            for tag, sel, fidx in sels:
+                if not (isinstance(sel, list) and isinstance(sel[0], str)):
+                    continue
+                st, val = call(lambda: pck2[sel](*pt))
+                rec.exe([dh, "second_plotfile", b, tag], nontrivial=True, trans=2)
+                sub = {"history": "selection list used on another plotfile before", "selection": tag, "list_now": [str(x) for x in sel], "point": pt}
+                if st == "exc":
+                    rec.fail("history_raised", sub, exc_text(val))
+                    continue
+                exp = np.array([ref2.data[lv][b][loc + (d2["fields"].index(names[f]),)] for f in fidx])
+                got = np.atleast_1d(np.asarray(val, dtype=float)).ravel()
+                with np.errstate(invalid="ignore"):
+                    okv = got.shape == exp.shape and bool(np.all((np.abs(got - exp) <= 1e-9 * np.abs(exp) + 1e-300) | ~np.isfinite(exp)))
+                if not okv:
+                    rec.fail("history_dependent", sub, "returned %r, the named fields hold %r" % (got.tolist(), exp.tolist()))
+            break
     rec.sample({"desc": desc, "queries": "every eligible interior cell centre x 3 selections; 12 outside points"})
     return rec.result()
 
